@@ -273,8 +273,10 @@ def _dfxp_ts(ms, rng):
         return "%02d:%02d:%02d.%03d" % (h, m, s, rem)
     if r < 0.85:
         return "%02d:%02d:%02d:%02d" % (h, m, s, rem * 30 // 1000)
-    if r < 0.92:
+    if r < 0.90:
         return "%.3fs" % (ms / 1000.0)
+    if r < 0.95:
+        return "%df" % (ms * 30 // 1000)
     return "%dms" % ms
 
 
@@ -300,7 +302,8 @@ def gen_dfxp(rng, n=None, nlangs=None, abs_units=None):
                             'tts:fontStyle="italic"', 'tts:textAlign="%s"' % rng.choice(["center", "left", "right", "start", "end"]),
                             'tts:fontWeight="bold"', 'tts:textDecoration="underline"'], rng.randint(1, 4))
         ref = ' style="s%d"' % (i - 1) if i > 0 and rng.random() < 0.3 else ""
-        styles.append('<style xml:id="s%d"%s %s/>' % (i, ref, " ".join(attrs)))
+        close = rng.choice(["/>", "/>", "/>", "/>", "/>", "/>", "></style>", "></style>", ">", "> </style>"])
+        styles.append('<style xml:id="s%d"%s %s%s' % (i, ref, " ".join(attrs), close))
     if rng.random() < 0.15:
         styles.append('<style xml:id="p" tts:color="yellow"/>')
     regions = []
@@ -326,8 +329,15 @@ def gen_dfxp(rng, n=None, nlangs=None, abs_units=None):
     tt_attrs = ' xml:lang="%s"' % rng.choice(["en", "en-US", ""]) if rng.random() < 0.7 else ""
     if rng.random() < 0.2:
         tt_attrs += ' tts:extent="%s"' % rng.choice(["640px 360px", "1280px 720px", "320px 240px", "50% 50%"])
+    if rng.random() < 0.2:
+        # TTML parameter attributes (today ignored by the reader; whatever a reader does with them must stay
+        # inside the document that carries them)
+        tt_attrs += " " + " ".join(rng.sample(['ttp:frameRate="%s"' % rng.choice(["24", "25", "60"]), 'ttp:frameRateMultiplier="1000 1001"',
+                                               'ttp:tickRate="%s"' % rng.choice(["10000000", "90000"]), 'ttp:timeBase="media"',
+                                               'ttp:cellResolution="%s"' % rng.choice(["32 15", "40 24"]), 'xml:space="preserve"',
+                                               'ttp:dropMode="nonDrop"'], rng.randint(1, 3)))
     out = ['<?xml version="1.0" encoding="utf-8"?>' if rng.random() < 0.7 else "",
-           '<tt%s xmlns="http://www.w3.org/ns/ttml" xmlns:tts="http://www.w3.org/ns/ttml#styling">' % tt_attrs,
+           '<tt%s xmlns="http://www.w3.org/ns/ttml" xmlns:tts="http://www.w3.org/ns/ttml#styling" xmlns:ttp="http://www.w3.org/ns/ttml#parameter">' % tt_attrs,
            "<head><styling>%s</styling><layout>%s</layout></head>" % ("".join(styles), "".join(regions)),
            "<body%s>" % (' region="r0"' if nregions and rng.random() < 0.1 else "")]
     for lang in langs:
